@@ -35,6 +35,17 @@ impl SharedHistory {
 
     /// Provides access to the underlying history.
     pub fn read(&self) -> impl ops::Deref<Target = PayloadHistory> + '_ {
+        #[cfg(feature = "verif-hooks")]
+        if crate::verif::is_controlled() {
+            loop {
+                crate::verif::yield_point("history.read");
+                match self.0.try_read() {
+                    Ok(guard) => return guard,
+                    Err(std::sync::TryLockError::WouldBlock) => continue,
+                    Err(_) => panic!("Payload history lock poisoned"),
+                }
+            }
+        }
         self.0.read().expect("Payload history lock poisoned")
     }
 
@@ -43,6 +54,17 @@ impl SharedHistory {
     /// This is private because access is only through dedicated update
     /// methods.
     fn write(&self) -> impl ops::DerefMut<Target = PayloadHistory> + '_ {
+        #[cfg(feature = "verif-hooks")]
+        if crate::verif::is_controlled() {
+            loop {
+                crate::verif::yield_point("history.write");
+                match self.0.try_write() {
+                    Ok(guard) => return guard,
+                    Err(std::sync::TryLockError::WouldBlock) => continue,
+                    Err(_) => panic!("Payload history lock poisoned"),
+                }
+            }
+        }
         self.0.write().expect("Payload history lock poisoned")
     }
 
